@@ -22,27 +22,31 @@ RULE = ("(a) random: generated point clouds (<=300 points quick / <=2000 thoroug
         '; sequential encoder ties (props/seqenc_cases.py, incl. global option fallbacks; the prediction scheme '
         'is computed by the model, not read back), kd-tree and Edgebreaker encoder / decoder ties (kdcases, '
         'ebcases, ebenc_cases), random option-store scripts on the real Options / EncoderOptions classes vs '
-        'DracoModel/Options.lean (props/options_cases.py)')
+        'DracoModel/Options.lean (props/options_cases.py)'
+        '; families gen:symbol-table-boundary, gen:wrap-range-limit, gen:index-width-boundary; '
+        'ebcases.tiny_mesh_cases (all meshes of <= 4 faces over <= 5 ids in the thorough tier, a sample in quick)')
 THEOREM_BACKED = "see evidence.coverage.theorems"
-CORRESPONDENCE_ONLY = ("Edgebreaker: the connectivity link (that the decoder's connectivity stage rebuilds a table isomorphic to"
-                       " the encoder's) and traversal coverage are hypotheses of eb_roundtrip_conditional_partial evaluated per "
-                       'case, not proved; paths reported as stream:*:model:unsupported_* / model:none in input_distribution are '
-                       "checked by RoundTripOK on the implementation's output only")
+CORRESPONDENCE_ONLY = ('Edgebreaker: the connectivity link for runs WITH S symbols / split events (hypothesis DecLoopIsoS), with'
+                       ' attribute seams or the valence traversal, and the value-side conditions of the link => RoundTripOK '
+                       'theorems are evaluated per case, not proved; paths reported as stream:*:model:unsupported_* / model:none'
+                       " in input_distribution are checked by RoundTripOK on the implementation's output only")
 EXPLANATION = ('composed end-to-end theorems for the model pairs of the sequential methods (DracoProps.C01: exactly '
-               'expected g opts, any trailing bytes; the encoder model computes SelectPredictionMethod itself — '
-               'seq_encoder_scheme_is_function_of_options, encodeGeometry_ignores_selectPrediction — and the option '
-               'store is modelled: options_get_set_int / _float, options_get_bool, draco_options_attribute_resolution) '
-               'and of the kd-tree method (DracoProps.C01Kd: expectedKd up to the order of points), each with the '
-               'corollary that the executable specification RoundTripOK accepts the proved result; Edgebreaker '
-               '(DracoProps.C01Eb): side coders, the inverse of every prediction scheme, the whole attribute value '
-               'block, the isomorphism chain and the stream-level eb_roundtrip_conditional_partial (both decodes consume'
-               ' exactly the stream and RoundTripOK accepts, GIVEN the connectivity link hconn / hnf, decoder-side facts'
-               ' hdec / hids, value conditions hvals, domain conditions hatt / huid / hproc / hfits, the plan setting '
-               'hs, the row correspondence hrows and traversal coverage hcover; every hypothesis discharged on a '
-               'one-triangle stream) are proved; the connectivity round trip and coverage are NOT — they are evaluated '
-               'per case by the op ebenc (iso-ok, coverage, hyp-ok, rt-ok, counts-ok). All three encoder models are tied'
-               ' byte for byte, the decoder model token for token (every method and bitstream version, kd-tree < 2.3 '
-               'included)')
+               'expected g opts, any trailing bytes; the encoder model computes SelectPredictionMethod itself and the '
+               'option store is modelled) and of the kd-tree method (DracoProps.C01Kd: expectedKd up to the order of '
+               'points), each with the corollary that the executable specification RoundTripOK accepts the proved '
+               "result; Edgebreaker (DracoProps.C01Eb), two proved halves: (1) the connectivity link (the decoder's "
+               "connectivity stage rebuilds a corner table isomorphic to the encoder's from its bytes): "
+               'eb_connectivity_roundtrip_noS_partial for EVERY encoder run without the symbol S (standard traversal, no'
+               " attribute data) given the decoder's domain checks hnf / hnv / hedge / hsz2, "
+               'eb_connectivity_roundtrip_withS_partial modulo ONE named hypothesis DecLoopIsoS, '
+               'eb_connectivity_withS_pure_partial; (2) link => RoundTripOK: eb_roundtrip_of_link_partial / '
+               "_base_partial (both decodes consume exactly the stream) given the link, domain conditions, the decoder's"
+               ' sequencers and the value-side conditions (ValueSideOK / hvals, hrows: evaluated per case); traversal '
+               'completeness (encodeConnectivity_coverage) is a theorem. NOT proved: the decoder loop for S symbols, the'
+               ' link with attribute seams / valence traversal — evaluated per case by the op ebenc (iso-ok, hyp-ok, '
+               'rt-ok, counts-ok). All three encoder models are tied byte for byte, the decoder model token for token '
+               '(every method and bitstream version); source_* obligations: index-width chains, table size class, '
+               'parallelogram component (translated C++ = model)')
 TIMEOUT = 900
 CHECKS = {"rt", "valid", "consumed", "corr"}
 
